@@ -1,0 +1,102 @@
+//go:build verif
+
+package virtual
+
+// Hooks for the external verification harness (/verif). This file only
+// exists when building with the "verif" build tag and only adds
+// read-only probes; it does not alter any behaviour.
+
+// VerifLockIsFree reports whether the mutex of an in-memory
+// prepopulated directory can be acquired right now. At quiescence (no
+// call in progress) a false result means some earlier call returned
+// without releasing the directory lock. The second result is false if
+// the directory is of a type this probe does not know.
+func VerifLockIsFree(d PrepopulatedDirectory) (free, known bool) {
+	i, ok := d.(*inMemoryPrepopulatedDirectory)
+	if !ok {
+		return false, false
+	}
+	if !i.lock.TryLock() {
+		return false, true
+	}
+	i.lock.Unlock()
+	return true, true
+}
+
+// VerifDirectoryLockIsFree is VerifLockIsFree for values only known as
+// Directory (e.g., returned by VirtualMkdir or VirtualLookup). Handle
+// allocator decorators for directories are unwrapped.
+func VerifDirectoryLockIsFree(d Directory) (free, known bool) {
+	for {
+		switch t := d.(type) {
+		case *inMemoryPrepopulatedDirectory:
+			return VerifLockIsFree(t)
+		case *nfsStatelessDirectory:
+			d = t.Directory
+		case *fuseStatelessDirectory:
+			d = t.Directory
+		default:
+			return false, false
+		}
+	}
+}
+
+// VerifLeafLockIsFree reports whether the lock of a pool-backed file
+// (possibly wrapped by the FUSE/NFS handle allocators) can be acquired
+// exclusively right now.
+func VerifLeafLockIsFree(l Leaf) (free, known bool) {
+	for {
+		switch t := l.(type) {
+		case *fileBackedFile:
+			if !t.lock.TryLock() {
+				return false, true
+			}
+			t.lock.Unlock()
+			return true, true
+		case *nfsStatefulLinkableLeaf:
+			l = t.LinkableLeaf
+		case *fuseStatefulLinkableLeaf:
+			l = t.LinkableLeaf
+		default:
+			return false, false
+		}
+	}
+}
+
+// VerifNFSHandlePoolLockIsFree reports whether the lock of the NFS
+// handle allocator's pool can be acquired exclusively right now.
+func (hr *NFSStatefulHandleAllocator) VerifNFSHandlePoolLockIsFree() bool {
+	if !hr.pool.lock.TryLock() {
+		return false
+	}
+	hr.pool.lock.Unlock()
+	return true
+}
+
+// VerifNFSHandlePoolCounts returns the number of directories, stateful
+// leaves and stateless leaves the NFS handle pool can currently resolve.
+func (hr *NFSStatefulHandleAllocator) VerifNFSHandlePoolCounts() (directories, statefulLeaves, statelessLeaves int) {
+	hr.pool.lock.RLock()
+	defer hr.pool.lock.RUnlock()
+	return len(hr.pool.directories), len(hr.pool.statefulLeaves), len(hr.pool.statelessLeaves)
+}
+
+// VerifFileBackedFileState returns the reference counters of a
+// pool-backed file: total references, writable descriptors and frozen
+// (upload/read-only snapshot) descriptors.
+func VerifFileBackedFileState(l Leaf) (referenceCount, writableDescriptors, frozenDescriptors uint, known bool) {
+	for {
+		switch t := l.(type) {
+		case *fileBackedFile:
+			t.lock.RLock()
+			defer t.lock.RUnlock()
+			return t.referenceCount, t.writableDescriptorsCount, t.frozenDescriptorsCount, true
+		case *nfsStatefulLinkableLeaf:
+			l = t.LinkableLeaf
+		case *fuseStatefulLinkableLeaf:
+			l = t.LinkableLeaf
+		default:
+			return 0, 0, 0, false
+		}
+	}
+}
